@@ -2265,6 +2265,27 @@ static int matchEmail(char *email, int32 emailLen,
     return 0;
 }
 
+/*
+    Are a and b the same certificate?  The TBS digest computed at parse time
+    identifies a certificate, but it is not computed (sigHash stays all zero)
+    when the signature algorithm signs the TBS directly, as Ed25519 does.
+    The buffered TBS is compared in that case.
+ */
+static
+int32_t isSameCert(const psX509Cert_t *a, const psX509Cert_t *b)
+{
+#  if defined(USE_ED25519) || defined(USE_ROT_ECC) || defined(USE_ROT_RSA) || (defined(USE_CL_RSA) && defined(USE_PKCS1_PSS))
+    if (a->tbsCertStart != NULL || b->tbsCertStart != NULL)
+    {
+        return (a->tbsCertStart != NULL && b->tbsCertStart != NULL &&
+                a->tbsCertLen == b->tbsCertLen &&
+                memcmpct(a->tbsCertStart, b->tbsCertStart, a->tbsCertLen) == 0);
+    }
+#  endif
+    return (a->sigHashLen == b->sigHashLen &&
+            memcmpct(a->sigHash, b->sigHash, a->sigHashLen) == 0);
+}
+
 static
 int32_t checkPathLenConstraint(psX509Cert_t *ic,
         psX509Cert_t *sc,
@@ -2280,8 +2301,7 @@ int32_t checkPathLenConstraint(psX509Cert_t *ic,
           Subtract one from pathLen in this case since one got
           added when it was truly just self-authenticating.
         */
-        if (sc->sigHashLen == ic->sigHashLen &&
-                memcmpct(sc->sigHash, ic->sigHash, sc->sigHashLen) == 0)
+        if (isSameCert(sc, ic))
         {
             if (pathLen > 0)
             {
